@@ -22,7 +22,6 @@ Record case := mkCase {
   c_store : list fact;         (* caller's store before the call *)
   c_init : list fact;          (* facts of the program text *)
   c_limit : Z;                 (* L *)
-  c_ofuel : Z;                 (* rounds per stratum granted to the UNLIMITED oracle run *)
   c_obs : obs }.
 
 Definition subset (a b : list fact) : bool := forallb (fun f => mem f b) a.
@@ -41,10 +40,19 @@ Definition run_model (c : case) : loutcome :=
 Definition case_bound (c : case) : nat :=
   limit_bound_fn (c_L c) (length (c_E c)) (max_rules (c_strata c)).
 
-(* independent oracle for verdict (a) when the model says "error" but Go returned nil:
-   the unlimited C01 model *)
-Definition oracle (c : case) : outcome (list fact) :=
-  eval_program (Z.to_nat (c_ofuel c)) (c_prog c) (c_layers c) (c_store c) (c_init c).
+(* independent property-level oracle for verdict (a) when the model says "error" but Go
+   returned nil: a (perfect) model contains the base facts and is CLOSED under the rules -
+   one application of every rule to Go's store (negation judged in that store) derives
+   nothing the store lacks. A store that is not closed is not the model: the derivable
+   missing fact is the witness. One rule application over the returned store is cheap and
+   always terminates, unlike running the unlimited engine on a diverging program.
+   (an evaluation error of the rule application decides nothing: counted as closed) *)
+Definition closed_under_rules (c : case) (fs : list fact) : bool :=
+  subset (c_E c) fs &&
+  forallb (fun s => match round0 (s_rules s) fs with
+                    | Some d => subset d fs
+                    | None => true
+                    end) (c_strata c).
 
 (* verdict codes
    0  agree: same class (ok / error), same store at return, same error kind
@@ -54,8 +62,8 @@ Definition oracle (c : case) : outcome (list fact) :=
       property, correspondence broken)
    4  Go returned nil with the complete model where the model reports an error
       (correspondence broken, property holds on this input)
-   5  VIOLATION (a): Go returned nil, model reports an error, and Go's store is not the
-      least model computed by the unlimited oracle (or that one does not finish either)
+   5  VIOLATION (a): Go returned nil, model reports an error, and Go's store is not closed
+      under the rules (a rule instance holds in it whose head is missing) or lacks a base fact
    7  both report an error, the stores at return differ (correspondence broken)
    8  VIOLATION (b): no return within the guard
    9  model out of fuel (excluded by limit_terminates: a broken obligation)
@@ -78,10 +86,7 @@ Definition judge (c : case) : Z :=
       | LEval St, OEvalErr _ => if set_eqb St fs then 0 else 7
       | LLimit St, OEvalErr _ => if set_eqb St fs then 1 else 7
       | LEval St, OLimitErr _ => if set_eqb St fs then 1 else 7
-      | _, _ => match oracle c with
-                | Ok M => if set_eqb M fs then 4 else 5
-                | _ => 5
-                end
+      | _, _ => if closed_under_rules c fs then 4 else 5
       end
     | None => 8
     end
